@@ -27,7 +27,7 @@ Stated bounds (u = 2^-53, eta = 2^-1074): a RUNNING error analysis (class RE) fo
 Unconstrained by the property (accepted either way by the oracle, still compared bit for bit with the model):
   a masked neighbour in range whose weight is 0 (code: does not mask); count in {neighbours in range, neighbours with w != 0}
   (code: neighbours in range); stddev where >= 2 neighbours are in range but at most one has non-zero weight (0/0 or x/0).
-Attribution keys: C04.layout_independence, C04.input_mutated, C04.neighbour_info.radius.epsilon, C04.neighbour_info.*, C04.weights, C04.mean, C04.mean.missing_slot_leak, C04.mean.placeholder_weight, C04.fill, C04.mask, C04.count[.k1|.mask],
+Attribution keys: C04.fill.sentinel_dtype, C04.layout_independence, C04.input_mutated, C04.neighbour_info.radius.epsilon, C04.neighbour_info.*, C04.weights, C04.mean, C04.mean.missing_slot_leak, C04.mean.placeholder_weight, C04.fill, C04.mask, C04.count[.k1|.mask],
   C04.stddev[.undefined|.mask], C04.uncert.return[.empty], C04.shape, C04.error.<Exception>.
 Translator (tools/gen_specs/GenC04.json, regenerated on every run, characterised in Proofs/C04_gen.v): the accumulation loop body and the
   normalisation block of _resample_with_weights, the loop body and the final-estimator block of _calculate_uncertainty (single- and
@@ -67,8 +67,9 @@ def f32(x):
 
 # ------------------------------------------------------------------ scalar weight functions (oracle side)
 def wf_eval(name, p, d):
+    c32 = f32 if PREC["u"] == U32 else (lambda x: x)    # numpy: float32 array < Python float compares in float32
     if name == "bins":
-        return 1.0 if d < p else (0.5 if d < 3 * p else (0.25 if d < 6 * p else 0.0))
+        return 1.0 if d < c32(p) else (0.5 if d < c32(3 * p) else (0.25 if d < c32(6 * p) else 0.0))
     if name == "inv":
         return 1.0 / (1.0 + (d / p) * (d / p))
     if name == "lin":
@@ -76,7 +77,7 @@ def wf_eval(name, p, d):
     if name == "const":
         return p
     if name == "step0":
-        return 0.0 if d < p else 1.0
+        return 0.0 if d < c32(p) else 1.0
     if name == "allzero":
         return 0.0
     # singular / huge at distance 0 (IEEE: x/0 = inf)
@@ -97,7 +98,7 @@ def wf_eval(name, p, d):
 def wf_eps(name, p, d):
     """relative uncertainty allowed between the table and the scalar evaluation"""
     if name in ("inv", "lin", "invd", "invd2", "invdt", "sing1", "sing1sq"):
-        return 16 * U
+        return 16 * PREC["u"]
     return 0.0
 
 
@@ -109,11 +110,17 @@ def gauss_eval(sigma, d):
 
 
 def gauss_eps(sigma, d):
-    return 16 * U * (1.0 + (d * d) / (sigma * sigma))
+    return 16 * PREC["u"] * (1.0 + (d * d) / (sigma * sigma))
 
 
 # ------------------------------------------------------------------ running error analysis (oracle side)
 ETA = 2.0 ** -1074          # absolute error of an operation whose result is subnormal (covers underflow)
+U32, ETA32 = 2.0 ** -24, 2.0 ** -149
+# unit roundoff / underflow unit of the arithmetic the code runs in for the current case: binary64, or binary32 when the
+# source geometry is float32 (kd-tree, distances and most weights are then float32, and with float32 data so are the sums).
+# In float32 mode the centre values are still computed in binary64; the bound then holds for ANY evaluation of the same
+# operation sequence whose every operation has relative error <= u (mixed float32/float64 included).
+PREC = {"u": U, "eta": ETA}
 SAFE = 1.0 + 2.0 ** -30     # the bounds themselves are computed in floating point
 
 
@@ -132,22 +139,26 @@ class RE:
 
     def add(self, o):
         v = self.v + o.v
-        return self._fin(v, self.e + o.e + U * abs(v))
+        u = PREC["u"]
+        return self._fin(v, (self.e + o.e) * (1 + u) + u * abs(v))
 
     def sub(self, o):
         v = self.v - o.v
-        return self._fin(v, self.e + o.e + U * abs(v))
+        u = PREC["u"]
+        return self._fin(v, (self.e + o.e) * (1 + u) + u * abs(v))
 
     def mul(self, o):
         v = self.v * o.v
-        return self._fin(v, abs(self.v) * o.e + abs(o.v) * self.e + self.e * o.e + U * abs(v) + ETA)
+        u = PREC["u"]
+        return self._fin(v, (abs(self.v) * o.e + abs(o.v) * self.e + self.e * o.e) * (1 + u) + u * abs(v) + PREC["eta"])
 
     def div(self, o):
         den = abs(o.v) - o.e
         if not den > 0:
             return RE(self.v / o.v if o.v != 0 else float("nan"), float("inf"))
         v = self.v / o.v
-        return self._fin(v, (self.e + (abs(v) * (1 + 4 * U) + ETA) * o.e) / den + U * abs(v) + ETA)
+        u = PREC["u"]
+        return self._fin(v, ((self.e + (abs(v) * (1 + 4 * U) + ETA) * o.e) / den) * (1 + u) + u * abs(v) + PREC["eta"])
 
     def sqrt(self):
         if self.v < 0:
@@ -156,14 +167,15 @@ class RE:
         lo = max(self.v - self.e, 0.0)
         d = v + math.sqrt(lo)
         e = min(math.sqrt(self.e), self.e / d if d > 0 else float("inf"))
-        return self._fin(v, e + U * abs(v))
+        u = PREC["u"]
+        return self._fin(v, e * (1 + u) + u * abs(v))
 
 
 def run_mean(pres, weps):
     """result/norm accumulated as the code does; pres = [(w, x)], weps = relative uncertainty of each weight"""
     res, nm = RE(0.0), RE(0.0)
     for (w, x), ew in zip(pres, weps):
-        wt = RE(w, ew * abs(w) + (4 * ETA if ew else 0.0))
+        wt = RE(w, ew * abs(w) + (4 * PREC["eta"] if ew else 0.0))
         res = res.add(wt.mul(RE(x)))
         nm = nm.add(wt)
     return res.div(nm), nm
@@ -172,7 +184,7 @@ def run_mean(pres, weps):
 def run_stddev(pres, weps, mean_re, nm):
     v2, sd = RE(0.0), RE(0.0)
     for (w, x), ew in zip(pres, weps):
-        wt = RE(w, ew * abs(w) + (4 * ETA if ew else 0.0))
+        wt = RE(w, ew * abs(w) + (4 * PREC["eta"] if ew else 0.0))
         v2 = v2.add(wt.mul(wt))
         dev = RE(x).sub(mean_re)
         sd = sd.add(wt.mul(dev.mul(dev)))
@@ -255,6 +267,7 @@ def gen_case(r, stream):
     eps_mode = stream in ("regular", "boundary", "nonfinite") and r.random() < 0.25
     if eps_mode:
         srows, scols = r.randint(1, 3), r.randint(1, 4)
+    want_f32 = r.random() < 0.3         # float32 source geometry (if the source is a swath)
     reduce_ok = abs(lat0) <= 40 and abs(lon0) < 170
     want_reduce = reduce_ok and r.random() < 0.3
     if want_reduce:     # one-pixel-thick areas make data_reduce raise (C09/C11 finding), not this property's business
@@ -330,6 +343,8 @@ def gen_case(r, stream):
         # (documented input ambiguity, outside this property): use the explicit channel axis instead
         nchan = 1
     dtype = r.choice(["float64", "float64", "float64", "float32", "int32"])
+    if want_f32:
+        dtype = r.choice(["float32", "float32", "float32", "float64", "int32"])
     nsrc = srows * scols
     shape_c = max(nchan, 1)
     dmode = r.choice(["int", "int", "float", "float", "big"])
@@ -412,6 +427,15 @@ def gen_case(r, stream):
                 p = radius * r.choice([0.5, 0.25, 0.125, 0.0625])
             wf.append([name, hx(p)])
         c["wf"] = wf
+    # float32 geometry (SwathDefinition built from float32 lons/lats; the target is cast to the source dtype by the
+    # library) in all combinations with float32 / float64 / int32 data
+    c["src_f32"] = bool(src["kind"] == "swath" and want_f32)
+    c["tgt_f32"] = bool(tgt["kind"] == "swath" and r.random() < 0.3)
+    if c["src_f32"]:
+        if r.random() < 0.5:
+            c["fill"] = None
+        if mode == "gauss":     # keep exp(-d^2/sigma^2) away from the float32 subnormal range
+            c["sigmas"] = [hx(radius * r.choice([1.0 / 3.0, 0.5, 1.0, 2.0])) for _ in range(shape_c)]
     # non-default optional argument epsilon
     c["epsilon"] = hx(0.0)
     if eps_mode:
@@ -511,6 +535,9 @@ class Judge:
         for r_i, t in enumerate(rows):
             txyz = xyz(*tgt[t])
             tol = 1e-6 + 1e-9 * radius
+            if getattr(self, "f32coords", False):
+                # float32 lon/lat -> float32 cartesian coordinates (ulp 0.5 m at the earth's radius), float32 distances
+                tol = 10.0 + 1e-6 * radius
             for i in dropped:
                 if dist3(txyz, xyz(*src[i])) < radius - tol:
                     self.bad("C04.neighbour_info.reduced", "source %d is within the radius of target %d but was reduced away" % (i, t))
@@ -558,6 +585,10 @@ class Judge:
         if "error" in o:
             self.bad("C04.error." + o["error"], "the implementation raised %s: %s" % (o["error"], o.get("msg", "")))
             return
+        # arithmetic of the case: float32 source geometry -> float32 kd-tree, distances and (mostly) weights
+        self.f32geo = o.get("dist_dtype") == "float32"
+        self.f32coords = bool(c.get("src_f32") or c.get("tgt_f32")) or self.f32geo
+        PREC["u"], PREC["eta"] = (U32, ETA32) if self.f32geo else (U, ETA)
         self.check_neighbours()
         self.layout_broken = o.get("same_as_c") is False
         if self.layout_broken:
@@ -603,7 +634,10 @@ class Judge:
                 else:
                     name, p = c["wf"][j][0], unhex(c["wf"][j][1])
                     ref, eps = wf_eval(name, p, d), wf_eps(name, p, d)
-                if not (w == ref or abs(w - ref) <= eps * abs(ref) + TINY):
+                atol = TINY
+                if PREC["u"] == U32:    # float32 evaluation: subnormal granularity; 1 - d/p cancels to absolute accuracy u
+                    atol = 4 * ETA32 + (8 * U32 if c["mode"] != "gauss" and c["wf"][j][0] == "lin" else 0.0)
+                if not (w == ref or abs(w - ref) <= eps * abs(ref) + atol):
                     self.bad("C04.weights", "channel %d: weight for distance %r is %r, documented function gives %r" % (j, d, w, ref))
         if o.get("table_conflict"):
             self.bad("C04.weights", "the weight function was observed with two different values for the same distance")
@@ -698,7 +732,10 @@ class Judge:
             # no neighbour in range (or nothing carries weight): filled or masked
             if fill_none:
                 if not m:
-                    self.bad("C04.fill", "%s: no contributing neighbour and fill_value=None, but the result %r is not masked" % (where, v))
+                    # the 'undetermined' marker must be the maximum of the dtype the result is stored in
+                    sentinel = math.isinf(v) or v in (F64MAX, F32MAX, I32MAX)
+                    self.bad("C04.fill.sentinel_dtype" if sentinel else "C04.fill",
+                             "%s: no contributing neighbour and fill_value=None, but the result %r is not masked" % (where, v))
             elif not m and not (v == fe):
                 key = "C04.fill"
                 if v != v and present_row is not None and first_valid is not None and not math.isfinite(vals[first_valid][j]):
@@ -723,7 +760,7 @@ class Judge:
                     value_ok = False
                     self.bad(key, "%s: result %r, but sum(w*x)/sum(w) over the %d neighbours in range %s is %r (bound %.3g)" % (
                         where, v, len(pres), [(w, x) for w, x, _, _ in pres][:8], float(mean), B))
-        if self.ma_plain and not finite:
+        if (self.ma_plain or self.f32geo) and not finite:
             tolv = float("inf")
             self.stat("cells_value_not_compared")
         if not c["with_uncert"]:
@@ -787,8 +824,10 @@ class Judge:
                                 where, sdv, math.sqrt(max(varf, 0.0)), E))
         if tols == float("inf"):
             tols = 1e300
-        if self.ma_plain and (not finite or tols == 1e300):
-            tols = float("inf")         # not compared: numpy.ma arithmetic, see Model/C04_run.v skip
+        if (self.ma_plain or self.f32geo) and (not finite or tols == 1e300):
+            # not compared (Model/C04_run.v skip): numpy.ma arithmetic, or float32 arithmetic in a cell the property leaves
+            # unconstrained (0/0 estimator, non-finite data), where binary32 and the binary64 model may differ in NaN vs inf
+            tols = float("inf")
             self.stat("cells_sd_not_compared")
         return "(%s, %s, %s, Some (%s, %s, %s, %d, %s))" % (
             "true" if m else "false", fhex(v), fhex(tolv), "true" if sdm else "false", fhex(sdv), fhex(tols),
@@ -825,7 +864,8 @@ def run(ctx):
                 "float64/float32/int32 data, 1..3 channels, masked data, fill number/None, with_uncert, reduce_data, segments, "
                 "non-default epsilon > 0 (on <= 12 sources, where the kd-tree search stays exhaustive), data and coordinate arrays in C / Fortran / "
                 "transposed-view / strided / negative-stride memory layout (each non-C call is also compared with the C-contiguous call), "
-                "NaN in one of two paired coordinates, radius as int. "
+                "NaN in one of two paired coordinates, radius as int, float32 source / target swath coordinates in all combinations with "
+                "float32 / float64 / int32 data (float32 geometry makes the kd-tree, distances, weights and - with float32 data - the sums float32). "
                 "A case is non-trivial when at least one output cell is a weighted mean of >= 2 present neighbours AND at least one slot is "
                 "missing or at least one cell is filled; distinct = distinct (geometry, data, parameters) inputs")
     cases = gen_cases(ctx)
@@ -843,6 +883,7 @@ def run(ctx):
             ctx.count("epsilon>0")
         if c["radius_int"]:
             ctx.count("radius_as_int")
+        ctx.count("geometry:src_%s/tgt_%s/data_%s" % ("f32" if c["src_f32"] else "f64", "f32" if c["tgt_f32"] else "f64", c["dtype"]))
         if c["mode"] == "custom" and any(w[0] in ("invd", "invd2", "invdt") for w in c["wf"]):
             ctx.count("wf_singular_at_0")
         if c["mode"] == "custom" and any(w[0] in ("sing1", "sing1sq") for w in c["wf"]):
@@ -923,7 +964,7 @@ def run(ctx):
                 len(bad), len(ids), ids[bad[0]], {kk: c[kk] for kk in ("k", "mode", "dtype", "C", "fill", "with_uncert", "stream")})))
     ctx.traces = n_cmp
     ctx.notes.append("correspondence: %d calls compared with the binary64 model; %d of them not bit-for-bit (accepted only within "
-                     "2x the stated bound 4(k+2)u*sum|w x|/sum w)" % (n_cmp, n_inexact))
+                     "2x the running error bound; float32 source geometry runs the sums in float32 arithmetic)" % (n_cmp, n_inexact))
     ctx.count("calls_bit_exact", n_cmp - n_inexact)
 
 
